@@ -354,6 +354,69 @@ func (c *fCloud) snapshot() []vt.M {
 	return r
 }
 
+
+// ---------------------------------------------------------------------------------------------
+// tracing locker: Local.cond is built on a sync.Locker; this one projects the Local's state at the end of every
+// critical section (Unlock is still inside it; cond.Wait goes through Unlock/Lock too) and emits it when it changed.
+
+type csLocker struct {
+	mu    sync.Mutex
+	l     *Local
+	slot  int
+	w     *vt.Writer
+	last  string
+	first bool
+}
+
+func liveLen(a AllocatingRequests) int {
+	n := 0
+	for _, r := range a {
+		select {
+		case <-r.workerCtx.Done():
+		default:
+			n++
+		}
+	}
+	return n
+}
+
+func (c *csLocker) Lock() { c.mu.Lock() }
+func (c *csLocker) Unlock() {
+	l := c.l
+	ents := []vt.M{}
+	add := func(s Set, fam int) {
+		for _, v := range s {
+			owner := 0
+			if v.podID != "" {
+				owner = -1
+				fmt.Sscanf(v.podID, "ns/pod-%d", &owner)
+			}
+			ents = append(ents, vt.M{"a": addrNum(v.ip), "owner": owner, "st": v.status.String(), "primary": v.primary, "fam": fam})
+		}
+	}
+	add(l.ipv4, 4)
+	add(l.ipv6, 6)
+	sort.Slice(ents, func(i, j int) bool { return ents[i]["a"].(int) < ents[j]["a"].(int) })
+	e := 0
+	if l.eni != nil {
+		e = eniNum(l.eni.ID)
+	}
+	m := vt.M{"slot": c.slot, "status": l.status.String(), "eni": e, "ents": ents, "q": liveLen(l.allocatingV4) + liveLen(l.allocatingV6),
+		"d": liveLen(l.dangingV4) + liveLen(l.dangingV6), "cap": l.cap}
+	key := fmt.Sprint(m)
+	if key != c.last {
+		c.last = key
+		if c.first {
+			c.first = false
+			m["ev"] = "adopt"
+		} else {
+			m["ev"] = "cs"
+		}
+		c.w.Emit(m)
+	}
+	c.mu.Unlock()
+}
+
 // ---------------------------------------------------------------------------------------------
 // the system under test: real Manager + real Locals on the fake cloud
 
@@ -420,6 +483,9 @@ func newPoolSys(t *testing.T, w *vt.Writer, cfg poolCfg, scen int, podRes []daem
 			l = NewLocal(nil, "secondary", cloud, pc)
 		}
 		l.rateLimitEni, l.rateLimitv4, l.rateLimitv6 = rate.NewLimiter(1000, 1000), rate.NewLimiter(1000, 1000), rate.NewLimiter(1000, 1000)
+		if os.Getenv("VERIF_CS") != "0" {
+			l.cond = sync.NewCond(&csLocker{l: l, slot: i + 1, w: w, first: true})
+		}
 		s.locals = append(s.locals, l)
 		nis = append(nis, l)
 	}
